@@ -140,10 +140,7 @@ Theorem C13_loop_expansion_mode_table : forall (csum : bool) (nz : nmode),
   (expansion_mode nz = true -> expand_route csum nz = requested nz)
   /\ ((expansion_mode nz = true \/ nz = NGlobal) -> compute_gloop_route csum nz = requested nz)
   /\ (expand_route csum nz = Rejected <-> (csum = true /\ (nz = NReturn \/ nz = NGlobal))).
-Proof.
-  exact (fun csum nz => conj (expand_route_spec csum nz)
-                             (conj (compute_gloop_route_spec csum nz) (expand_route_rejects csum nz))).
-Qed.
+Proof. exact loop_expansion_mode_table. Qed.
 Print Assumptions C13_loop_expansion_mode_table.
 
 Section C13opt.
